@@ -27,6 +27,20 @@ CHECKS = {
  "C06": ("model_checking", "TLC on ProofGame (Open clusters), Transcript.tla (tuple components) and ZkAbacus.tla (ReplayRefused) + single-component substitutions validated by TLC",
          "an honest establish / pay proof is verified under every single-component substitution of its tuple (merchant configurations sharing all parts but one are built with from_parts; fresh and near values; "
          "channel-id bit flips; context bytes), closing messages get each field replaced by values of other states / channels, and replay-heavy protocol histories are validated against ZkAbacus.tla", "6 C06"),
+ "C07": ("model_checking", "TLC on PSig.tla (exponent instance, provenance calculus) + operation chains on the real code validated by TLC",
+         "PSig.tla is model-checked for every key, message, randomiser (incl. 0) and chain up to length 3 over Z_5 (Verify <=> provenance valid, single-coordinate changes rejected, identity never verifies); "
+         "~1000 real chains for N in {1,2,3,5,8,13} with scripted randomness are validated against the provenance calculus and the independently evaluated pairing equation", "6 C07"),
+ "C08": ("model_checking", "TLC on PSig.tla (BlindSign from verified request) + honest / tampered signature requests validated by TLC",
+         "every field of a signature request proof, the challenge and the key are tampered (must yield no blind-signable value); honest requests must yield one whose blind signature unblinds to a "
+         "signature on exactly the proven message; verdicts must equal the independently evaluated Schnorr relation", "6 C08"),
+ "C09": ("model_checking", "TLC on Pedersen.tla (all parameters, messages, blinding factors over Z_3/Z_5) + real commitments vs independent accumulation validated by TLC",
+         "Pedersen.tla proves exactness, single-perturbation binding and additivity exhaustively in the exponent instance; real commitments for both groups, all N, boundary classes (incl. identity-valued commitments, blinding factor 1) are checked against an independent computation", "6 C09"),
+ "C10": ("model_checking", "TLC on Schnorr.tla / RangeC.tla (completeness) + honest proofs and documented patterns on the real prover validated by TLC",
+         "completeness is model-checked exhaustively over Z_3 (Z_5 thorough); ~900 honest proofs (4 kinds x N x message classes x linked subsets) and every documented constraint pattern incl. boundary range values are executed and validated", "6 C10"),
+ "C11": ("model_checking", "TLC on Schnorr.tla (exactness, perturbation, simulation, identity signature) + verifier calls with independent relation atoms validated by TLC",
+         "every verifier call (honest, each single-field perturbation incl. small-order points, wrong challenge / parameters, simulated transcripts, degenerate signatures through chosen randomness) must return exactly the conjunction of the independently evaluated Schnorr, well-formedness and pairing relations", "6 C11"),
+ "C13": ("model_checking", "TLC on RangeC.tla + prover boundary set, attacker-assembled constraints and parameter substitutions validated by TLC",
+         "RangeC.tla is model-checked (round trip, refusal of negatives, accepted => in range, maximum forgeable value); the real prover / verifier / validate() are driven over the i64 boundary set, constraints assembled from published digit signatures and single-signature substitutions", "6 C13"),
  "C12": ("model_checking", "TLC on Transcript.tla with observed hashed sets + per-atom substitution observations validated by TLC",
          "for every ChallengeInput type and both composite proofs every non-response atom of the wire form is replaced by another valid atom and the recorded transcript / challenge is compared; "
          "builder challenge = proof challenge and challenge = SHA3(transcript) are checked; TLC decides Binding/FirstMessageHashed on Transcript.tla for the observed sets", "6 C12"),
